@@ -6,7 +6,9 @@ sides, header formats match the header tuples, the in-place header updates of V2
 field boundaries (C19.a); defragmentation copies all 128x128 slots into the temporary
 bundle before it removes the original and renames only if something was stored (C19.c);
 plus the shared addressing/ordering/locking rules C05.c, C06.c, C06.d, C08.d (re-run here as
-C19.d)."""
+C19.d).
+Added in round 4: a removed tile leaves an empty index entry (C19.f); bundle files come into
+existence through write_atomic (C19.d, shared C06.a)."""
 import ast
 import re
 import struct
